@@ -18,7 +18,7 @@ import (
 //
 // Oracle: structural parser (model.ParseTextTable), no golden strings.
 
-const c03Fam = gen.FAscii | gen.FNewline | gen.FWide | gen.FCombining | gen.FZero | gen.FEmoji | gen.FInvalid
+const c03Fam = gen.FAscii | gen.FNewline | gen.FWide | gen.FCombining | gen.FZero | gen.FEmoji | gen.FInvalid | gen.FEdge
 
 // ownLines splits text into lines the way the statements describe: line
 // breaks removed, at most one trailing line break ignored.
@@ -50,7 +50,10 @@ func decoGlyphs(d decoration.Decoration) []string {
 }
 
 // glyph pool for custom decorations: every entry measures one display cell
-var c03GlyphPool = []string{"+", "-", "|", "=", "#", "*", ".", ":", "~", "o", "/", "\\", "X", " ", "\u2500", "\u2502", "\u253c", "\u2550", "\u2551", "\u256c", "\u00e9", "\u00b7", "x\u0338"}
+var c03GlyphPool = []string{"+", "-", "|", "=", "#", "*", ".", ":", "~", "o", "/", "\\", "X", " ", "\u2500", "\u2502", "\u253c", "\u2550", "\u2551", "\u256c", "\u00e9", "\u00b7", "x\u0338",
+	// characters that mean something to a mechanism the library might build its lines with (fmt verbs, templates,
+	// regexp replacements, os.Expand, HTML, quoting): as glyphs they are just one-cell glyphs
+	"%", "%", "%", "$", "{", "}", "<", ">", "&", "\"", "'", "`", "?", "[", "]", "^", "(", ")", ",", ";", "!", "@", "0", "1", "s", "d", "v", "q", "n", "T"}
 
 var decoFieldNames = func() []string {
 	var out []string
